@@ -118,3 +118,5 @@ func ValidQuery(schema *ast.Schema, query string) bool { panic("ghost") }
 //@ requires w != nil
 //@ ensures[status] Status == code && StatusWrites == old(StatusWrites) + 1
 //@ end
+
+//@ commute (subscriptionDict).CleanAll loop 0: assumed: sd.Clean(key) removes and closes only the entry of that key (teardown; interleavings are C18, not decided)
